@@ -86,6 +86,20 @@ def made():
     s.append([com(1), {"op": "Pase", "c": 2}, C(2, "csru", via="pase"), C(2, "unoc", via="pase"), C(2, "csr", via="pase"), w(61000), rd(1)])
     s.append([com(1), com(2), C(1, "arm"), C(2, "csru"), C(1, "csru"), C(2, "unoc"), C(1, "unoc"), C(2, "complete"), C(1, "complete"), w(3000), {"op": "Restart"}, rd(1), rd(2)])
     s.append([com(1), com(2), C(1, "arm"), C(1, "csru"), C(1, "unoc"), C(2, "remove", idx=1), w(70000), rd(2), rd(1)])
+    # RevokeCommissioning by the other administrator rolls an uncompleted commissioning back (its sessions and resumption
+    # records go with it); the index is re-used
+    s.append([com(1), com(2, False), rd(2), C(1, "revoke"), rd(2, False), com(2), rd(2), rd(1), rd(2, False)])
+    s.append([com(1), com(2, False), rd(2), case(2), w(3000), C(1, "revoke"), {"op": "Restart"}, com(2), rd(2), rd(1)])
+    s.append([com(1), C(1, "arm"), C(1, "label"), C(1, "revoke"), rd(1), {"op": "Restart"}, rd(1)])
+    s.append([com(1), com(2), C(2, "arm"), C(2, "csru"), C(2, "unoc"), C(1, "revoke"), rd(2), rd(1)])
+    s.append([com(1), com(2, False), rd(2), C(1, "revoke"), rd(1, False), rd(2, False), rd(1)])
+    # ... revoked by the commissioner itself; the index goes to the other administrator, the old one comes back
+    s.append([com(2, False), rd(2), C(2, "revoke"), com(1), rd(2, False), rd(1), rd(2)])
+    s.append([com(2, False), rd(2), w(3000), C(2, "revoke"), w(3000), {"op": "Restart"}, com(1), rd(1), rd(2, False)])
+    # the overdue fail-safe is noticed while a request of the OTHER administrator is handled (the per-request check runs
+    # before the 1 s tick): requests every 100 ms around the deadline
+    for lead in (59000, 59300, 59650):
+        s.append([com(1), rd(1), com(2, False), w(lead)] + [x for _ in range(14) for x in (rd(1, False), w(100))] + [rd(1, False), rd(2, False), rd(1)])
     # every history once more with administrators that use different node ids
     return s + [[{"op": "Config", "ids": "diff"}] + x for x in s]
 
